@@ -29,6 +29,7 @@ type defSite struct {
 	name string   // for params: canonical name
 	pos  token.Pos
 	zero bool // var x T without initialiser
+	lit  *ast.FuncLit // innermost enclosing function literal of the definition (nil: root function)
 }
 
 // Defs returns the definition sites of every local object declared in the root function of f
@@ -40,6 +41,7 @@ func (f *Fn) Defs() map[types.Object][]defSite {
 	}
 	info := r.Info()
 	m := map[types.Object][]defSite{}
+	var stack []*ast.FuncLit
 	add := func(id *ast.Ident, d defSite) {
 		if id == nil || id.Name == "_" {
 			return
@@ -52,6 +54,9 @@ func (f *Fn) Defs() map[types.Object][]defSite {
 			return
 		}
 		d.pos = id.Pos()
+		if len(stack) > 0 {
+			d.lit = stack[len(stack)-1]
+		}
 		m[obj] = append(m[obj], d)
 	}
 	params := func(ft *ast.FuncType, recv *ast.FieldList, prefix string) {
@@ -90,7 +95,6 @@ func (f *Fn) Defs() map[types.Object][]defSite {
 		params(r.Lit.Type, nil, "λ")
 	}
 	depth := map[*ast.FuncLit]int{}
-	var stack []*ast.FuncLit
 	ast.Inspect(r.Body(), func(n ast.Node) bool {
 		if n == nil {
 			return true
@@ -182,6 +186,18 @@ func (f *Fn) SingleDef(obj types.Object) (defSite, bool) {
 		return ds[0], true
 	}
 	return defSite{}, false
+}
+
+// ClosureMutated reports whether obj is assigned in more than one function body (e.g. declared in the
+// function and assigned inside a nested literal): path-local value tracking is unsound for such variables.
+func (f *Fn) ClosureMutated(obj types.Object) bool {
+	ds := f.Defs()[obj]
+	for i := 1; i < len(ds); i++ {
+		if ds[i].lit != ds[0].lit {
+			return true
+		}
+	}
+	return false
 }
 
 // DefCount returns how many definition sites obj has in the function.
